@@ -44,7 +44,7 @@ def run(ctx):
         np.random.seed(x)
 
     quick = ctx.tier == "quick"
-    n_cases = 600 if quick else 6000
+    n_cases = 1000 if quick else 8000
     nviol = 0
 
     def mk(kind, w, d, cfg):
@@ -61,9 +61,9 @@ def run(ctx):
     kinds = ["linear", "log16", "log8", "hll", "hh"]
     for it in range(n_cases):
         kind = kinds[it % 5]
-        w = rng.choice([1, 2, 3, 4, 8])
-        d = rng.choice([1, 2, 3, 4])
-        cfg = {"max_count": rng.choice([300, 5000, 2**32 - 1]), "max_count16": rng.choice([100000, 2**32 - 1]), "nr16": rng.choice([0, 3, 1023]), "nr8": rng.choice([0, 3, 15]),
+        w = rng.choice([1, 2, 2, 3, 3, 4, 8])
+        d = rng.choice([1, 2, 3, 3, 4])
+        cfg = {"max_count": rng.choice([300, 5000, 2**32 - 1]), "max_count16": rng.choice([100000, 2**32 - 1]), "nr16": rng.choice([0, 3, 1023, 1023]), "nr8": rng.choice([0, 3, 15, 15, 100]),
                "p": rng.choice([7, 8, 10]), "seed": rng.choice([0, 1, 2**63, rng.getrandbits(64)]), "mkl": rng.choice([1, 2, 4, 16])}
         alphabet = [bytes(rng.getrandbits(8) for _ in range(rng.choice([0, 1, 2, 3, 5, 8, 17, 40]))) for _ in range(rng.randint(2, 5))]
         alphabet += [b"", alphabet[0] + b"\x00"]
@@ -73,7 +73,7 @@ def run(ctx):
             B.rand_ptr = A.rand_ptr
         # common random prefix so that collisions are order dependent
         prefix = [(rng.choice(alphabet), rng.choice([1, 1, 2, 5, 40])) for _ in range(rng.randint(0, 6))]
-        form = rng.choice(["update_list", "update_dict", "mult", "ngram", "update_ngram", "getitem"])
+        form = rng.choice(["update_list", "update_dict", "update_dict", "mult", "mult", "mult", "ngram", "update_ngram", "getitem"])
         detail = {}
         seedval = rng.getrandbits(31)
 
